@@ -38,6 +38,9 @@ enum Step {
     HbReq,
     HbReqUnknown,
     HbResp,
+    /// the cluster configuration changes while the election runs: two more nodes are configured
+    /// (the quorum in effect follows the new node count unless one is configured explicitly)
+    Grow,
     /// let the election timeout pass (advance until the vote requests go out)
     Timeout,
     /// nothing arrives for one heartbeat timeout
@@ -119,7 +122,7 @@ impl Scenario for ElectionScenario {
                 } else if self.family == 1 {
                     matches!(s, Step::VoteNew | Step::VoteDup | Step::VoteUnknown | Step::VoteSelf)
                 } else {
-                    matches!(s, Step::VoteNew | Step::VoteDup | Step::VoteSelf | Step::Silence | Step::Timeout)
+                    matches!(s, Step::VoteNew | Step::VoteDup | Step::VoteSelf | Step::Silence | Step::Timeout | Step::Grow)
                 };
                 if !ok {
                     return None;
@@ -147,12 +150,22 @@ impl Scenario for ElectionScenario {
                 peer_socks.push(s);
             }
             let stranger = UdpSocket::bind((localhost, 0)).await.expect("MACHINERY: bind");
+            // two nodes that join the configuration at a `Grow` step
+            let mut extra_socks = vec![];
+            let mut extra_infos = vec![];
+            for i in 0..2usize {
+                let s = UdpSocket::bind((localhost, 0)).await.expect("MACHINERY: bind");
+                let port = s.local_addr().expect("addr").port();
+                extra_infos.push(peer_info(&format!("p{}", self.n.saturating_sub(1) + i), localhost, port, 11_000 + i as u16));
+                extra_socks.push(s);
+            }
+            let mut grown = false;
             let cfg = match config("me", T_MS, node_addr.port(), 9_999, self.quorum_configured, &infos, Some(MY_PRIO), "/nonexistent/worterbuch", "/nonexistent/data".into()) {
                 Ok(c) => c,
                 Err(_) => return Some(StepOut { fingerprint: hash_str("rejected-config"), verdict: Verdict::Ok, class: "config-rejected".into() }),
             };
-            let quorum = cfg.quorum;
-            let n = self.n;
+            let mut quorum = cfg.quorum;
+            let mut n = self.n;
             // the documented quorum
             let expected_quorum = self.quorum_configured.unwrap_or(n / 2 + 1);
             if quorum != expected_quorum || quorum > n {
@@ -164,7 +177,7 @@ impl Scenario for ElectionScenario {
             }
             let outcome: Arc<Mutex<Option<Result<String, String>>>> = Arc::new(Mutex::new(None));
             let o2 = outcome.clone();
-            let (_peers_tx, mut peers_rx) = mpsc::channel(1);
+            let (peers_tx, mut peers_rx) = mpsc::channel(1);
             let s2 = subsys.clone();
             let peers_cfg = infos.clone();
             tokio::spawn(async move {
@@ -219,6 +232,7 @@ impl Scenario for ElectionScenario {
                     Step::VoteDup => !voted.is_empty(),
                     Step::VoteReq(_) | Step::HbReq | Step::HbResp => have_peer,
                     Step::Timeout => phase == Phase::Waiting,
+                    Step::Grow => !grown && self.quorum_configured.map(|q| q <= self.n).unwrap_or(true),
                     Step::Silence => phase != Phase::Waiting,
                     _ => true,
                 };
@@ -265,6 +279,20 @@ impl Scenario for ElectionScenario {
                     }
                     Step::HbResp => {
                         peer_socks[0].send_to(&msg_hb_response("p0"), node_addr).await.ok();
+                    }
+                    Step::Grow => {
+                        grown = true;
+                        let mut all = infos.clone();
+                        all.extend(extra_infos.iter().cloned());
+                        let me = peer_info("me", localhost, node_addr.port(), 9_999);
+                        peers_tx.send((peers(all), me, None)).await.ok();
+                        spin(40).await;
+                        peer_socks.append(&mut extra_socks);
+                        n += 2;
+                        quorum = self.quorum_configured.unwrap_or(n / 2 + 1);
+                        // the round starts over with the new configuration
+                        phase = Phase::Waiting;
+                        voted.clear();
                     }
                     Step::Timeout => {
                         // the election timeout is t + random(0..t): advance in t/8 steps until the
@@ -383,6 +411,7 @@ fn all_steps() -> Vec<Step> {
         Step::HbReqUnknown,
         Step::HbResp,
         Step::Silence,
+        Step::Grow,
     ]
 }
 
@@ -472,7 +501,7 @@ fn main() {
     ev.set("configurations_with_leader_outcome", json!(outcomes.keys().filter(|k| k.ends_with(":leader")).map(|k| k.rsplitn(3, '-').last().unwrap_or("").to_owned() + "-" + k.split('-').nth(1).unwrap_or("")).collect::<BTreeSet<_>>().len()));
     ev.set("distinct_nontrivial", json!(classes.len()));
     ev.set("exhaustive", json!(exhaustive));
-    ev.set("rule", json!(format!("cluster sizes 1..{max_n}, configured quorum none or 1..n; for each configuration every sequence of scripted peer behaviours (vote from a new / duplicate / unknown node / carrying the node's own id, vote request with higher / equal / lower priority, from a stranger, heartbeat request from a member / stranger, heartbeat response, election timeout, silence) up to the completed depth, plus the timeout-then-votes paths up to quorum+2 so that the leader outcome is reachable for every quorum, plus the election-round paths (timeout, votes of configured peers, expiry of the round, timeout, votes …) up to depth {rounds} so that votes of expired rounds are offered to later rounds; distinct_nontrivial counts distinct (last step, outcome) classes", rounds = if thorough { 9 } else { 7 })));
+    ev.set("rule", json!(format!("cluster sizes 1..{max_n}, configured quorum none or 1..n; for each configuration every sequence of scripted peer behaviours (vote from a new / duplicate / unknown node / carrying the node's own id, vote request with higher / equal / lower priority, from a stranger, heartbeat request from a member / stranger, heartbeat response, election timeout, silence, growth of the configured cluster by two nodes while the election runs) up to the completed depth, plus the timeout-then-votes paths up to quorum+2 so that the leader outcome is reachable for every quorum, plus the election-round paths (timeout, votes of configured peers, expiry of the round, timeout, votes …) up to depth {rounds} so that votes of expired rounds are offered to later rounds; distinct_nontrivial counts distinct (last step, outcome) classes", rounds = if thorough { 9 } else { 7 })));
     ev.assume("safety only: 'leader' implies votes from at least quorum-1 distinct configured peers since the node's latest vote-request broadcast; 'follower' implies a heartbeat request from that node, and follow() returns without starting anything for a node that is not configured; liveness is not asserted");
     ev.assume("paused tokio clock, real loopback UDP sockets, the harness never parks (fixed number of yields per step, event_interval 1); the randomized election timeout (t..2t) is crossed by advancing in t/8 steps until the vote requests are observed");
     ev.assume("senders are chosen canonically (lowest-numbered configured peer): the election code inspects a peer's identity only for membership and equality");
